@@ -39,11 +39,16 @@ func encSched(c *Case) (sched, pokes string) {
 	var ops []string
 	var ps [][]Entry
 	for _, o := range c.Sched {
+		pre := ""
+		if o.hasPre {
+			pre = "e" + strconv.Itoa(len(ps)) + "+"
+			ps = append(ps, o.pre)
+		}
 		if o.kind == 'c' {
-			ops = append(ops, "c"+strconv.Itoa(len(ps)))
+			ops = append(ops, pre+"c"+strconv.Itoa(len(ps)))
 			ps = append(ps, o.poke)
 		} else {
-			ops = append(ops, string(o.kind))
+			ops = append(ops, pre+string(o.kind))
 		}
 	}
 	return strings.Join(ops, ","), encStatuses(ps)
@@ -52,8 +57,17 @@ func encSched(c *Case) (sched, pokes string) {
 func modelLine(c *Case, steps int) string {
 	k := kindByVariant(c.Variant)
 	sched, pokes := encSched(c)
-	return fmt.Sprintf("kind=%s variant=%s ctlr=%s steps=%d new=%s store=%s sched=%s pokes=%s",
-		k.name, c.Variant, esc(c.Ctlr), steps, encStatus(c.New), encStatus(c.Store), sched, pokes)
+	return fmt.Sprintf("kind=%s variant=%s ctlr=%s steps=%d new=%s store=%s sched=%s pokes=%s%s",
+		k.name, c.Variant, esc(c.Ctlr), steps, encStatus(c.New), encStatus(c.Store), sched, pokes, snapField(c))
+}
+
+// snapField: the status of the (cached) object the computed status was derived from, when it is known;
+// the model ignores it, the judge uses it only to NAME a violation (live drift or not).
+func snapField(c *Case) string {
+	if !c.HasSnap {
+		return ""
+	}
+	return " snap=" + encStatus(c.Snap)
 }
 
 // schemas is set by -gwapi: the CRD status schemas every submitted object is validated against.
@@ -129,8 +143,8 @@ func execCase(c *Case, steps int, viaUpdater, spare bool) (out outcome) {
 	if len(f.jcalls) > 0 {
 		jcalls = strings.Join(f.jcalls, ",")
 	}
-	out.judge = fmt.Sprintf("kind=%s ctlr=%s steps=%d new=%s calls=%s gets=%s subs=%s done=%s",
-		k.name, esc(c.Ctlr), steps, encStatus(c.New), jcalls, encStatuses(f.gets), encStatuses(f.subs), doneFlag)
+	out.judge = fmt.Sprintf("kind=%s ctlr=%s steps=%d new=%s calls=%s gets=%s subs=%s done=%s%s",
+		k.name, esc(c.Ctlr), steps, encStatus(c.New), jcalls, encStatuses(f.gets), encStatuses(f.subs), doneFlag, snapField(c))
 	return out
 }
 
@@ -206,7 +220,7 @@ func Run(args []string) int {
 				fmt.Fprintf(w, "P %s\tM %s\n", esc(o.panicked), modelLine(c, *steps))
 				continue
 			}
-			fmt.Fprintf(w, "M %s\tO %s\tJ %s\tI profile=%s lenient=%t prepared=%t schema=%s\n", modelLine(c, *steps), o.obs, o.judge, c.Profile, c.Lenient, c.Prepared != 0, o.schema)
+			fmt.Fprintf(w, "M %s\tO %s\tJ %s\tI profile=%s lenient=%t prepared=%t schema=%s drift=%s\n", modelLine(c, *steps), o.obs, o.judge, c.Profile, c.Lenient, c.Prepared != 0, o.schema, c.driftInfo())
 			w.Flush()
 		}
 	case "longmsg":
@@ -247,7 +261,7 @@ func Run(args []string) int {
 				fmt.Fprintf(w, "P %s\tM %s\n", esc(outs[i].panicked), modelLine(c, *steps))
 				continue
 			}
-			fmt.Fprintf(w, "M %s\tO %s\tJ %s\tI profile=%s lenient=%t prepared=false schema=%s\n", modelLine(c, *steps), outs[i].obs, outs[i].judge, c.Profile, c.Lenient, outs[i].schema)
+			fmt.Fprintf(w, "M %s\tO %s\tJ %s\tI profile=%s lenient=%t prepared=false schema=%s drift=%s\n", modelLine(c, *steps), outs[i].obs, outs[i].judge, c.Profile, c.Lenient, outs[i].schema, c.driftInfo())
 		}
 	case "replay":
 		sc := bufio.NewScanner(os.Stdin)
@@ -267,7 +281,7 @@ func Run(args []string) int {
 				fmt.Fprintf(w, "P %s\tM %s\n", esc(o.panicked), modelLine(c, st))
 				continue
 			}
-			fmt.Fprintf(w, "M %s\tO %s\tJ %s\tI profile=replay lenient=false prepared=false schema=%s\n", modelLine(c, st), o.obs, o.judge, o.schema)
+			fmt.Fprintf(w, "M %s\tO %s\tJ %s\tI profile=replay lenient=false prepared=false schema=%s drift=%s\n", modelLine(c, st), o.obs, o.judge, o.schema, c.driftInfo())
 		}
 	case "dedup":
 		for i := 0; i < *n; i++ {
